@@ -73,7 +73,7 @@ func setup(c *Ctx, dir string, sc scenario, tag string) (*env, error) {
 		e.a = NewNode(c.Bin, "c04a"+tag, dirA, workCommandYAML(dirA))
 		e.target = "localhost"
 	case "remote-unbound":
-		e.a = NewNode(c.Bin, "c04a"+tag, dirA, "")
+		e.a = NewNode(c.Bin, "c04a"+tag, dirA, workCommandYAML(dirA))
 		e.target = "c04nowhere"
 	case "remote-bound":
 		dirB := filepath.Join(dir, "b")
@@ -84,8 +84,12 @@ func setup(c *Ctx, dir string, sc scenario, tag string) (*env, error) {
 			e.b.KillStrays()
 			return nil, err
 		}
-		e.a = NewNode(c.Bin, "c04a"+tag, dirA, fmt.Sprintf("- tcp-peer:\n    address: 127.0.0.1:%d\n", port))
+		e.a = NewNode(c.Bin, "c04a"+tag, dirA, fmt.Sprintf("- tcp-peer:\n    address: 127.0.0.1:%d\n", port)+workCommandYAML(dirA))
 		e.target = e.b.ID
+	}
+	if err := plantResidents(e.a); err != nil {
+		e.teardown()
+		return nil, err
 	}
 	return e, nil
 }
@@ -180,7 +184,7 @@ func submit(sock, target string, pl plan) (unit string, acked, replied bool, rep
 func theOnlyUnit(n *Node) string {
 	ents, _ := os.ReadDir(filepath.Join(n.DataDir, n.ID))
 	for _, e := range ents {
-		if e.IsDir() {
+		if e.IsDir() && !isResident(e.Name()) {
 			return e.Name()
 		}
 	}
@@ -188,6 +192,9 @@ func theOnlyUnit(n *Node) string {
 }
 
 func complete(state int) bool { return state == 2 || state == 3 }
+
+// final: the states in which a unit is at rest for good (Canceled included)
+func final(state int) bool { return state == 2 || state == 3 || state == 4 }
 
 // experiment runs one scenario with one crash (cs == nil: no crash, enumerate the crash points).
 func experiment(c *Ctx, dir string, sc scenario, cs *crashSpec, tag string) (*observation, []hit, int, error) {
@@ -209,6 +216,8 @@ func experiment(c *Ctx, dir string, sc scenario, cs *crashSpec, tag string) (*ob
 		return nil, nil, 0, fmt.Errorf("node does not start: %v", err)
 	}
 	daemonPid := a.Cmd.Process.Pid
+	o.Residents = newResidentObs()
+	lookAtResidents(a.Sock, o.Residents, false)
 	if e.b != nil && !waitPing(a.Sock, e.b.ID, 30*time.Second) {
 		return nil, nil, 0, fmt.Errorf("node A never reaches node B")
 	}
@@ -337,13 +346,15 @@ func experiment(c *Ctx, dir string, sc scenario, cs *crashSpec, tag string) (*ob
 		if err != nil {
 			o.AtRestart.Err = "work list: " + err.Error()
 		}
+		lookAtResidents(a.Sock, o.Residents, true)
 		o.Final = o.AtRestart
 		return o, nil, daemonPid, nil
 	}
 	o.AtRestart = query(a.Sock, o.Unit)
+	lookAtResidents(a.Sock, o.Residents, true)
 	// follow the unit to its end
 	follow := o.RunnerUp || (sc.Kind == "remote-bound" && o.AtRestart.Started)
-	limit := 1500 * time.Millisecond
+	limit := 700 * time.Millisecond
 	if follow {
 		limit = span + 25*time.Second // generous: a loaded machine, a mesh that has to come back
 	}
@@ -379,7 +390,7 @@ func experiment(c *Ctx, dir string, sc scenario, cs *crashSpec, tag string) (*ob
 	if !o.Acked {
 		return o, nil, daemonPid, nil
 	}
-	if sc.Kind != "local" {
+	if sc.Kind == "remote-bound" && o.AtRestart.Started {
 		time.Sleep(1300 * time.Millisecond)
 	}
 	a.Kill()
@@ -387,6 +398,21 @@ func experiment(c *Ctx, dir string, sc scenario, cs *crashSpec, tag string) (*ob
 	if err := startReady(a); err == nil {
 		v := query(a.Sock, o.Unit)
 		o.Cycle2 = &v
+		lookAtResidents(a.Sock, o.Residents, true)
+		if o.Results != "" {
+			wantOut := pattern[:sc.Plan.size()]
+			got, ended, err := WorkResults(a.Sock, o.Unit, 0, 6*time.Second)
+			switch {
+			case err != nil:
+				o.Results2 = "error:" + err.Error()
+			case !ended:
+				o.Results2 = fmt.Sprintf("no-end:%d", len(got))
+			case bytes.Equal(got, wantOut):
+				o.Results2 = "complete"
+			default:
+				o.Results2 = fmt.Sprintf("differs:%d-of-%d", len(got), len(wantOut))
+			}
+		}
 	} else {
 		o.Cycle2 = &view{State: -1, Err: "daemon does not come back: " + err.Error()}
 	}
@@ -480,6 +506,15 @@ func runAll(c *Ctx, sh *shared, tmp string) {
 	var mu sync.Mutex
 	var wg sync.WaitGroup
 	only := os.Getenv("C04_ONLY")
+	if err := makeResidents(c, filepath.Join(tmp, "template")); err != nil {
+		sh.im.Violate("the resident units (one per final state) could not be made: "+err.Error(), "harness-residents", nil)
+		return
+	}
+	names := []string{}
+	for _, r := range residents {
+		names = append(names, fmt.Sprintf("%s(state %d %q size %d)", r.Name, r.Ref.State, r.Ref.Detail, r.Ref.Size))
+	}
+	sh.im.Extra["residents"] = strings.Join(names, ", ")
 	// enumeration runs, one per scenario, in parallel
 	for si, sc := range scenarios {
 		if only != "" && !strings.Contains(sc.Name, only) {
@@ -524,7 +559,7 @@ func runAll(c *Ctx, sh *shared, tmp string) {
 		}
 	}
 	wg.Wait()
-	sem := make(chan struct{}, 8)
+	sem := make(chan struct{}, 10)
 	for _, j := range jobs {
 		wg.Add(1)
 		go func(j job) {
